@@ -1274,12 +1274,13 @@ class OperatorVectorSum(Operator):
     def _call(self, x, out=None):
         """Evaluate the residual at ``x`` and write to ``out`` if given."""
         if out is None:
-            out = self.operator(x)
+            # The result of the out-of-place call can share memory with
+            # ``x`` (e.g. for `RealPart`), so it is not updated in place
+            return self.operator(x) + self.vector
         else:
             self.operator(x, out=out)
-
-        out += self.vector
-        return out
+            out += self.vector
+            return out
 
     def derivative(self, point):
         """Derivative the operator vector sum.
